@@ -93,13 +93,18 @@ def build_goderive():
 
 
 def prune_work(keep):
-    """Keeps the build cache small: at most 3 repo-* directories."""
+    """Keeps the build cache small: repo-* directories not used for 3 hours are removed (never one
+    that may still be in use by a concurrent check), at most 8 are kept."""
     try:
+        now = time.time()
         ds = [os.path.join(WORK, x) for x in os.listdir(WORK) if x.startswith("repo-")]
         ds = [x for x in ds if x != keep]
         ds.sort(key=lambda x: os.path.getmtime(x))
-        for x in ds[:-2]:
+        old = [x for x in ds if now - os.path.getmtime(x) > 3 * 3600]
+        extra = [x for x in ds if x not in old][:-7] if len(ds) - len(old) > 7 else []
+        for x in old + [e for e in extra if now - os.path.getmtime(e) > 1800]:
             shutil.rmtree(x, ignore_errors=True)
+        os.utime(keep, None)
     except OSError:
         pass
 
